@@ -49,6 +49,7 @@ type Dir struct {
 	Read    int   // bytes consumed so far
 	CutAt   int   // -1: never; otherwise the link breaks once Written reaches CutAt (bytes beyond are dropped)
 	Hold    bool  // delivered bytes stay invisible to the reader while set
+	Cap     int   // >0: socket buffer size: a write blocks while this many bytes are pending (a slow or stalled reader pushes back)
 	closed  bool  // writer side closed: reader gets EOF after draining
 	broken  bool
 }
@@ -152,6 +153,12 @@ func (c *conn) Write(b []byte) (int, error) {
 		return 0, errors.New("write: broken pipe")
 	}
 	d := c.wr
+	if d.Cap > 0 && len(d.buf) >= d.Cap {
+		rt.Block(func() bool { return d.Cap <= 0 || len(d.buf) < d.Cap || c.closed || d.closed })
+		if c.closed || d.closed {
+			return 0, errors.New("write: broken pipe")
+		}
+	}
 	if d.CutAt >= 0 && d.Written+len(b) >= d.CutAt {
 		keep := d.CutAt - d.Written
 		if keep < 0 {
